@@ -4,6 +4,18 @@ import os
 from common import *
 
 LEVEL = "model_checking"
+MANIFEST = dict(
+        category="model_checking",
+        text="TLC explores the complete state graph of the tracker (MaxTracker.tla, propagation loop transcribed "
+             "statement by statement) for M=1..8 (quick) / 1..10 (thorough) and checks that it refines 'per-slot minima "
+             "and their maximum'; every transition of those graphs is replayed on the real tracker and leaves, maximum, "
+             "is_update_possible and reset are compared; random update/reset sequences at M up to 5000 are recorded from "
+             "the real tracker and validated by TLC against the abstract layer (TraceMaxTracker.tla).",
+        design_ref="DESIGN.md section 4, C15",
+        note="trusted: TLC, the guarded wrapper verif::VerifMaxTracker (forwarding only), the order isomorphism between "
+             "model values and reals; exhaustive only for the listed (M,V)",
+        technique="TLA+ spec + TLC complete state graph, transition-by-transition replay into the Rust tracker, TLC trace validation of recorded runs",
+    )
 INVS = ["InvLeaves", "InvMax", "InvTree", "InvPossible", "InvReset"]
 
 
@@ -29,7 +41,7 @@ def model_and_replay(chk, graphs_, tag=""):
         tf = os.path.join(chk.wd, "tr_%d_%d.ndjson" % (m, v))
         write_ndjson(tf, trs)
         of = os.path.join(chk.wd, "rp_%d_%d.json" % (m, v))
-        harness(["c15-replay", "in=" + tf, "out=" + of, "seed=%d" % chk.seed])
+        harness("c15", ["replay", "in=" + tf, "out=" + of, "seed=%d" % chk.seed])
         r = json.load(open(of))
         chk.add("evaluations", r["evaluations"])
         chk.add("transitions_replayed", r["evaluations"])
@@ -48,7 +60,7 @@ def model_and_replay(chk, graphs_, tag=""):
 
 def record_and_validate(chk, runs, maxm, length, seed):
     tf = os.path.join(chk.wd, "trace_%d_%d.ndjson" % (maxm, seed))
-    harness(["c15-record", "out=" + tf, "seed=%d" % seed, "runs=%d" % runs, "maxm=%d" % maxm, "len=%d" % length])
+    harness("c15", ["record", "out=" + tf, "seed=%d" % seed, "runs=%d" % runs, "maxm=%d" % maxm, "len=%d" % length])
     v = validate_trace("TraceMaxTracker", tf, chk.wd)
     rows = read_ndjson(tf)
     nruns = sum(1 for r in rows if r.get("op") == "new")
@@ -71,7 +83,7 @@ def record_and_validate(chk, runs, maxm, length, seed):
 
 
 def run(chk):
-    build_harness()
+    build_harness("c15")
     chk.cov["rule"] = ("complete TLC state graphs of MaxTracker.tla for the listed (M,V); every transition (s,a,s') is "
                        "replayed on the real tracker (state built by a seed-dependent path); non-trivial = an improving "
                        "update that changes the maximum, or changes a slot while slots differ; plus random update/reset "
@@ -92,14 +104,14 @@ def run(chk):
 
 def replay(chk, path):
     sc = json.load(open(path))["scenario"]
-    build_harness()
+    build_harness("c15")
     if sc["kind"] == "transition":
         tf = os.path.join(chk.wd, "one.ndjson")
         write_ndjson(tf, [sc["rec"]])
         of = os.path.join(chk.wd, "one.json")
         bad = 0
         for s in range(20):
-            harness(["c15-replay", "in=" + tf, "out=" + of, "seed=%d" % (chk.seed + s)])
+            harness("c15", ["replay", "in=" + tf, "out=" + of, "seed=%d" % (chk.seed + s)])
             r = json.load(open(of))
             bad += len(r["mismatches"])
             for mm in r["mismatches"][:1]:
@@ -120,7 +132,7 @@ def replay(chk, path):
 
 def selftest(chk):
     """anti-vacuity: a corrupted observation and a removed event must be rejected"""
-    build_harness()
+    build_harness("c15")
     v, tf = record_and_validate(chk, 10, 8, 40, chk.seed)
     assert v["accepted"]
     rows = read_ndjson(tf)
